@@ -62,11 +62,19 @@ pub fn deserialize_2026_body_from_stream<R: Read>(
         if length == 0 || count == 0 {
             return Err(EvalErr::SerializationError);
         }
-        buf.resize(length, 0);
         for _ in 0..count {
-            reader
-                .read_exact(&mut buf)
+            // read at most `length` bytes instead of allocating the declared
+            // length up front: the declared length is not trusted, and a huge
+            // one must fail like any other truncated input
+            buf.clear();
+            let n = reader
+                .by_ref()
+                .take(length as u64)
+                .read_to_end(&mut buf)
                 .map_err(|_| EvalErr::SerializationError)?;
+            if n != length {
+                return Err(EvalErr::SerializationError);
+            }
             atoms.push(allocator.new_atom(&buf)?);
         }
     }
